@@ -206,8 +206,13 @@ def r_index(repo, tier):
     # ------------------------------------------------------------------ ADJUST
     a1, a2 = _adjusts(sn), _adjusts(cn)
     out.inst("ADJUST", {"setup": a1, "__call__": a2})
+    def _is_lambda_text(t):
+        return isinstance(t, str) and "_" in t and "self._" not in t and "__ret" not in t
+
     for e in ("be", "le"):
-        if e in a1 and e in a2 and a1[e] != a2[e]:
+        if e in a1 and e in a2 and not (_is_lambda_text(a1[e]) and _is_lambda_text(a2[e])):
+            out.undecide(CORE, call.dqual, "ADJUST %s" % e, "the justification is not written as two lambdas (%s / %s); not compared" % (a1[e], a2[e]))
+        elif e in a1 and e in a2 and a1[e] != a2[e]:
             out.report(CORE, call.dqual, "ADJUST: %s %s vs %s" % (e, a2[e], a1[e]), cn.lineno, "for %s-endian fetch setup justifies masks and fixes with `%s` but __call__ justifies the fetched word with `%s`" % ("big" if e == "be" else "little", a1[e], a2[e]))
         elif (e in a1) != (e in a2):
             out.undecide(CORE, call.dqual, "ADJUST %s" % e, "justification found in only one of setup / __call__")
